@@ -120,11 +120,13 @@ class V:
     def __init__(self, site, symptom, case=None, expected=None, observed=None, py=None, size=None):
         self.site = site
         self.symptom = symptom
-        self.case = case
-        self.expected = expected
-        self.observed = observed
+        # plain data only: a violation travels from a worker process to the parent (a live library object inside it may not
+        # survive pickling - a Row cannot be unpickled, which used to take the whole process pool down) and into JSON artefacts
+        self.case = jsonable(case)
+        self.expected = jsonable(expected)
+        self.observed = jsonable(observed)
         self.py = py
-        self.size = size if size is not None else len(repr(case))
+        self.size = size if size is not None else len(repr(self.case))
 
     @property
     def sig(self):
